@@ -154,6 +154,7 @@ def t_internal_match(ex):
 # ----------------------------------------------------------------- bounded stand-in: whole queries ----
 R1 = {"a": {"x": ["1", "2"], "y": ["1"], "e": []}, "b": {"x": ["1"], "z": ["3"]}, "c": {}}   # a/e: a listed name that holds no package
 R2 = {"a": {"x": ["3"], "w": ["1"]}, "d": {"x": ["1"]}}
+R3 = {"a": {"x": ["0", "4"], "m": ["2"]}, "b": {"x": ["2"], "a": ["1"]}}   # a third repository: its first match sorts before or after the others' depending on the query
 
 
 def leaves():
@@ -221,6 +222,21 @@ def _check(repos, restr, fails, label):
     if gotm != wantm and len(fails) < 4:
         fails.append({"model": {"restriction": str(restr), "query": "multiplex.itermatch"},
                       "detail": f"multiplex itermatch({restr}) yields {gotm if err is None else err}; the union of the per-repository brute-force answers is {wantm}"})
+    # a sorted query over the stack: the same packages, in sorter order (two stack orders, both directions)
+    for stack in (repos, repos[::-1], repos[1:] + repos[:1]):
+        for rev in (False, True):
+            srt2 = (lambda x, rev=rev: sorted(x, reverse=rev))
+            try:
+                seq = list(multiplex.tree(*stack).itermatch(restr, sorter=srt2))
+                err = None
+            except Exception as e:
+                seq, err = None, f"{type(e).__name__}: {e}"
+            n += 1
+            if err is not None or sorted(map(str, seq)) != wantm or seq != sorted(seq, reverse=rev):
+                if len(fails) < 4:
+                    fails.append({"model": {"restriction": str(restr), "query": "multiplex.itermatch(sorter)", "reverse": rev},
+                                  "detail": f"multiplex itermatch({restr}, sorter=sorted{'(reverse)' if rev else ''}) over 3 repositories yields {err or [str(p) for p in seq]}; "
+                                            f"expected the packages {wantm} in {'descending' if rev else 'ascending'} order"})
     # filtered tree: raw answer restricted by the filter
     flt = packages.PackageRestriction("package", values.StrExactMatch("x"))
     ft = filtered.tree(r, flt, True)
@@ -238,7 +254,7 @@ def enum_queries(seed):
     from pkgcore.repository.util import SimpleTree
     from pkgcore.restrictions import packages
     thorough = os.environ.get("VERIF_TIER") == "thorough"
-    repos = [SimpleTree(R1), SimpleTree(R2)]
+    repos = [SimpleTree(R1), SimpleTree(R2), SimpleTree(R3)]
     L = leaves()
     fails, cases = [], 0
     for x in L:
@@ -288,7 +304,7 @@ def enum_queries(seed):
             fails.append({"model": {"restriction": str(restr), "query": "itermatch(versioned=False)"}, "detail": f"itermatch({restr}, versioned=False) yields {got}, expected {want}"})
     return {"name": "C08.queries.bounded_enumeration",
             "bound": f"every leaf, every all-of / any-of pair (negated or not) over {len(L)} leaves (single- and multi-attribute), any-of groups mixing category-only / package-only / category-and-package alternatives, and seeded random trees of depth <= {3 if thorough else 2}, each queried plainly, with a sorter, "
-                     "through a 2-repository multiplex and a filtered tree, plus unversioned queries for category/package leaves, on fixed small repositories, against brute force",
+                     "through a 3-repository multiplex (plain and sorted both ways, three stacking orders) and a filtered tree, plus unversioned queries for category/package leaves, on fixed small repositories, against brute force",
             "cases": cases, "failures": fails}
 
 
